@@ -7,6 +7,7 @@ import Hive.Proofs.C12bSubMgrMirror
 import Hive.Proofs.C12bSubMgrLimit
 import Hive.Gen.C12b_Src
 import Hive.Spec.C12bSource
+import Hive.Proofs.C12bTimeHeapFloat
 /-!
 # C12 (part B) — BytesFilter, Walker, TimeHeap, IndexedStorage, OnChangeMap, SubscriptionManager
 are equivalent to their abstract models
@@ -224,6 +225,17 @@ big entry has left the window the answer is 7 again (the subtraction wraps back)
 example : (TH.run TH.init [.add 18446744073709551615, .tick 1, .add 7, .avg 5, .avg 1]).2 =
     [.ok, .ok, .ok, .total 6 5, .total 7 1] := by
   rw [C12_timeheap_refines]; decide
+
+/-- **The `float32` model always yields a 24-bit mantissa**: for every positive rational `n / d` the result
+`(m, e)` of `TH.f32OfRat` (value `m · 2^e`; it models `float32(total)` and the `float32` quotient of
+`AveragePerSecond`) has `2^23 ≤ m < 2^24` — the exponent chosen from the bit lengths of `n` and `d`, corrected by
+at most one, is the right one, also when the rounding carries into the next binade. -/
+theorem C12_timeheap_float_normalised (n d : Nat) (hn : n ≠ 0) (hd : d ≠ 0) :
+    2 ^ 23 ≤ (TH.f32OfRat n d).1 ∧ (TH.f32OfRat n d).1 < 2 ^ 24 :=
+  TH.f32OfRat_normal n d hn hd
+
+-- non-vacuity: the carry case (2^24 - 1/2 rounds up into the next binade) and an ordinary one
+example : TH.f32OfRat 33554431 2 = (8388608, 1) ∧ TH.f32OfRat 1 3 = (11184811, -25) := by decide
 
 /-- **The rounding of the returned `float32` is round-to-nearest, ties-to-even**: `TH.roundDiv N D` (the rounding
 step of `TH.f32OfRat`, which models `float32(total)` and the `float32` quotient of `AveragePerSecond`) is within
